@@ -438,7 +438,8 @@ class _MExpr:
     def __and__(self, other):
         return And(self, other)
 
-    __rand__ = __and__
+    def __rand__(self, other):
+        return And(other, self)
 
     def __or__(self, other):
         return Or(self, other)
@@ -555,7 +556,8 @@ class _MType:
     def __and__(self, other):
         return And(self, other)
 
-    __rand__ = __and__
+    def __rand__(self, other):
+        return And(other, self)
 
     def __or__(self, other):
         return Or(self, other)
